@@ -1,5 +1,6 @@
 import Dashu.Driver.Loop
 import Dashu.Model.Conv.Ieee
+import Dashu.Model.Conv.Prim
 /-
   Driver of group `conv` (C06).  For every op it prints what the property REQUIRES (the spec);
   where a mirrored model exists it is evaluated beside the spec and a difference is reported as
@@ -60,8 +61,126 @@ def decodeOp (mty : String) (d : DecConsts) (b : Nat) : String :=
   | .ok (m, e) => ok (primStr mty m ++ " " ++ primStr "i16" e)
   | .error c => ok ("err:" ++ c.name)
 
-def dispatch : Dispatch := fun _W op args =>
+def primBits : String → Option (Nat × Bool)
+  | "u8" => some (8, false) | "u16" => some (16, false) | "u32" => some (32, false)
+  | "u64" => some (64, false) | "u128" => some (128, false) | "usize" => some (64, false)
+  | "i8" => some (8, true) | "i16" => some (16, true) | "i32" => some (32, true)
+  | "i64" => some (64, true) | "i128" => some (128, true) | "isize" => some (64, true)
+  | _ => none
+
+def errStr (e : ConvErr) : String := "err:" ++ e.name
+
+def convStr (ty : String) : Except ConvErr Int → String
+  | .ok v => primStr ty v
+  | .error e => errStr e
+
+/-- model beside spec -/
+def chk (model spec : String) : String :=
+  if model = spec then ok spec else ok spec ++ " !model-spec-mismatch model=" ++ model
+
+def sreprInt (W : Nat) (r : SRepr) : String :=
+  let v := r.mag.value W
+  if r.neg then (if v = 0 then "-0" else "-" ++ natToHex v) else natToHex v
+
+/-- big → primitive: model (mirrored width/sign checks on the canonical repr) and spec (range) -/
+def toPrimOp (W : Nat) (ty : String) (x : Int) (fromU : Bool) : Option String := do
+  let (bits, signed) ← primBits ty
+  let (lo, hi) ← primRange ty
+  let spec := convStr ty (intoRangeSpec lo hi x)
+  let model : Except ConvErr Int :=
+    if fromU then
+      (if signed then ubigTryToSigned W bits (ofNat W x.toNat)
+       else (fun n : Nat => (n : Int)) <$> tryToUnsigned W bits (ofNat W x.toNat))
+    else
+      (if signed then ibigTryToSigned W bits (⟨decide (x < 0), ofNat W x.natAbs⟩ : SRepr)
+       else (fun n : Nat => (n : Int)) <$> ibigTryToUnsigned W bits (⟨decide (x < 0), ofNat W x.natAbs⟩ : SRepr))
+  pure (chk (convStr ty model) spec)
+
+def fromPrimOp (W : Nat) (kind : String) (a : String) : Option String := do
+  let (ty, v) ← parsePrim a
+  if ty = "bool" then
+    if v = 0 ∨ v = 1 then return ok (intToHex v) else none
+  let (bits, signed) ← primBits ty
+  let (lo, hi) ← primRange ty
+  if ¬ (lo ≤ v ∧ v ≤ hi) then none
+  match kind with
+  | "u" =>
+    if signed then
+      let spec := if v < 0 then errStr .outOfBounds else intToHex v
+      let model := match ubigTryFromSigned W bits v with
+        | .ok r => natToHex (r.value W) | .error e => errStr e
+      pure (chk model spec)
+    else pure (chk (natToHex ((fromUnsigned W v.toNat).value W)) (intToHex v))
+  | "i" =>
+    let model := if signed then sreprInt W (fromSigned W bits v)
+      else sreprInt W ⟨false, fromUnsigned W v.toNat⟩
+    pure (chk model (intToHex v))
+  | _ => pure (ok (intToHex v ++ " 1"))
+
+/-- integer → float: spec = IEEE rounding of the integer; model = mirrored `to_fNN` with the
+    repaired `encode` / `to_f64_small` -/
+def intToFloatOp (W : Nat) (ty : String) (F : Ieee) (x : Int) (asis : Bool) : String :=
+  let spec := ok (apxStr ty (ieeeRound F x 0))
+  let r := ofNat W x.natAbs
+  let m := if F.MB = 23 then toF32 W (!asis) r else toF64 W (!asis) r
+  let model := excStr ty ((signedApx F (decide (x < 0))) <$> m)
+  if asis then model
+  else if model = spec then spec else spec ++ " !model-spec-mismatch model=" ++ model
+
+def tryToFloatOp (ty : String) (F : Ieee) (x : Int) : String :=
+  match ubigTryToFloat F x.natAbs with
+  | .ok b =>
+    -- spec side: a successful conversion must be exact
+    let b' := if x < 0 then F.signBit + b else b
+    let exact := ieeeRound F x 0
+    if exact = (b', Flag.exact) ∨ x = 0 then ok (fbits ty b')
+    else ok (fbits ty b') ++ " !model-spec-mismatch inexact-success"
+  | .error e => ok (errStr e)
+
+def intFromFloatOp (d : DecConsts) (signed : Bool) (b : Nat) : String :=
+  match intFromFloatSpec d signed b with
+  | .ok v => ok (intToHex v)
+  | .error e => ok (errStr e)
+
+def intFromFloatAsIsOp (d : DecConsts) (signed : Bool) (b : Nat) : String :=
+  if signed then
+    match ibigTryFromFloatAsIs d b with
+    | .ok v => ok (intToHex v) | .error e => ok (errStr e)
+  else
+    match ubigTryFromFloatAsIs d b with
+    | .ok v => ok (natToHex v) | .error e => ok (errStr e)
+
+def dispatch : Dispatch := fun W op args =>
   match op, args with
+  | "u.to", [ty, a] => do let x ← parseNat a; toPrimOp W ty x true
+  | "i.to", [ty, a] => do let x ← parseInt a; toPrimOp W ty x false
+  | "u.from", [a] => fromPrimOp W "u" a
+  | "i.from", [a] => fromPrimOp W "i" a
+  | "r.from", [a] => fromPrimOp W "r" a
+  | "i.to.ubig", [a] => do
+    let x ← parseInt a
+    pure (ok (if x < 0 then errStr .outOfBounds else intToHex x))
+  | "u.to.ibig", [a] => do let x ← parseNat a; pure (ok (natToHex x))
+  | "u.to_f32", [a] => do let x ← parseNat a; pure (intToFloatOp W "f32" .binary32 x false)
+  | "u.to_f64", [a] => do let x ← parseNat a; pure (intToFloatOp W "f64" .binary64 x false)
+  | "i.to_f32", [a] => do let x ← parseInt a; pure (intToFloatOp W "f32" .binary32 x false)
+  | "i.to_f64", [a] => do let x ← parseInt a; pure (intToFloatOp W "f64" .binary64 x false)
+  | "u.to_f32.asis", [a] => do let x ← parseNat a; pure (intToFloatOp W "f32" .binary32 x true)
+  | "u.to_f64.asis", [a] => do let x ← parseNat a; pure (intToFloatOp W "f64" .binary64 x true)
+  | "i.to_f32.asis", [a] => do let x ← parseInt a; pure (intToFloatOp W "f32" .binary32 x true)
+  | "i.to_f64.asis", [a] => do let x ← parseInt a; pure (intToFloatOp W "f64" .binary64 x true)
+  | "u.tryto_f32", [a] => do let x ← parseNat a; pure (tryToFloatOp "f32" .binary32 x)
+  | "u.tryto_f64", [a] => do let x ← parseNat a; pure (tryToFloatOp "f64" .binary64 x)
+  | "i.tryto_f32", [a] => do let x ← parseInt a; pure (tryToFloatOp "f32" .binary32 x)
+  | "i.tryto_f64", [a] => do let x ← parseInt a; pure (tryToFloatOp "f64" .binary64 x)
+  | "u.from_f32", [a] => do let b ← parseFloatBits "f32" 32 a; pure (intFromFloatOp f32Dec false b)
+  | "u.from_f64", [a] => do let b ← parseFloatBits "f64" 64 a; pure (intFromFloatOp f64Dec false b)
+  | "i.from_f32", [a] => do let b ← parseFloatBits "f32" 32 a; pure (intFromFloatOp f32Dec true b)
+  | "i.from_f64", [a] => do let b ← parseFloatBits "f64" 64 a; pure (intFromFloatOp f64Dec true b)
+  | "u.from_f32.asis", [a] => do let b ← parseFloatBits "f32" 32 a; pure (intFromFloatAsIsOp f32Dec false b)
+  | "u.from_f64.asis", [a] => do let b ← parseFloatBits "f64" 64 a; pure (intFromFloatAsIsOp f64Dec false b)
+  | "i.from_f32.asis", [a] => do let b ← parseFloatBits "f32" 32 a; pure (intFromFloatAsIsOp f32Dec true b)
+  | "i.from_f64.asis", [a] => do let b ← parseFloatBits "f64" 64 a; pure (intFromFloatAsIsOp f64Dec true b)
   | "f32.encode", [a, b] => do
     let m ← parsePrimOf "i32" a; let e ← parsePrimOf "i16" b
     pure (encodeOp "f32" .binary32 f32Fixed m e)
